@@ -166,6 +166,11 @@ func (handler *Handler) loadByteArray(source []byte) (net1 *dhcpSubnet, net2 *dh
 		return nil, nil, nil, err
 	}
 
+	// both subnet sections are required: leases are validated against them
+	if table.Net1 == nil || table.Net2 == nil {
+		return nil, nil, nil, fmt.Errorf("missing net1 or net2 section")
+	}
+
 	// Validate net1 configuration to ensure IPs are good
 	if table.Net1 != nil {
 		net1, err = newSubnet(SubnetConfig{
